@@ -32,9 +32,20 @@ if __name__ == "__main__":
     flt = sys.argv[1] if len(sys.argv) > 1 else ""
     names = sorted(n for n in os.listdir("/verif/seeded") if os.path.isdir(f"/verif/seeded/{n}") and flt in n)
     tasks = [(n, p) for n in names for p in PROPS]
-    import multiprocessing
-    # workers are recycled: the interning tables of the value forms grow with every analysed variant (a worker that ran 300 of them held 7 GB)
-    with ProcessPoolExecutor(max_workers=12, mp_context=multiprocessing.get_context("spawn"), max_tasks_per_child=24) as ex:
+    # a fresh pool per batch: the interning tables of the value forms grow with every analysed variant (a worker that ran 300 of them held 7 GB)
+    class _Batched:
+        def __enter__(self):
+            return self
+
+        def __exit__(self, *a):
+            return False
+
+        def map(self, fn, tasks, chunksize=1):
+            tasks = list(tasks)
+            for i in range(0, len(tasks), 320):
+                with ProcessPoolExecutor(max_workers=16) as pool:
+                    yield from pool.map(fn, tasks[i:i + 320], chunksize=chunksize)
+    with _Batched() as ex:
         res = list(ex.map(one, tasks, chunksize=4))
     by = {}
     for n, p, st in res:
